@@ -138,7 +138,7 @@ def classify(pid, results, baseline, known):
     """Returns dict with lists: discharged, failed (each with status), vacuity problems, errors."""
     base = set(baseline.get(pid, {}).get("clauses", []))
     base_funcs = set(baseline.get(pid, {}).get("functions", []))
-    open_known = [k for k in known.get("findings", []) if k["property"] == pid and k.get("status") == "open"]
+    open_known = [k for k in known.get("findings", []) if (k["property"] == pid or (pid in k.get("also", []) and k.get("clause"))) and k.get("status") == "open"]
     rep = {"obligations": [], "violations": [], "known": [], "undecided": [], "errors": [], "vacuity": [], "functions": [], "abstractions": {}, "trusted": set(), "drift": []}
     seen_funcs = set()
     for res in results:
